@@ -37,9 +37,14 @@ def bounds(tier):
             'window': 'START, END on one thread; ' + ('no lookups' if tier == 'quick' else '0 and 1 lookups')}
 
 
+PROBES = ['BSC_sys_fcntl', 'BSC_read', 'BSC_mmap', 'BSC_lseek', 'BSC_issetugid', 'BSC_open']
+
+
 def structures(tier):
     sts = []
     for n in sweep.decoder_names(('BSC_',)):
+        if tier == 'thorough' or sweep.weight({'name': n}) == 1:
+            sts.append({'name': n, 'kind': 'history'})
         sts.append({'name': n, 'lookups': 0})
         if tier == 'thorough':
             sts.append({'name': n, 'lookups': 1, 'len': 5})
@@ -88,7 +93,31 @@ def _strip_quoted_tail(rest):
     return rest
 
 
+def run_history(ctx, st):
+    """the probes are decoded with the SAME END words, then Y: Y's result part equals what it is on a fresh parser state"""
+    name = st['name']
+    a = [ctx.int('a%d' % i) for i in range(4)]
+    r = [ctx.int('r%d' % i) for i in range(4)]
+    o1 = sweep.run_window(ctx, name, a, r)
+    if o1.kind != 'text':
+        ctx.reach('outcome:' + o1.kind); ctx.reach(); return
+    _, by_name = sweep.codes()
+    for i, pr in enumerate(PROBES):
+        if pr in by_name and pr != name:
+            sweep.run_window(ctx, pr, [3, 0, 0, 0], r)
+    o2 = sweep.run_window(ctx, name, a, r)
+    L = 'C10/%s' % name
+    if o2.kind != 'text':
+        ctx.check(L + '/history-independent', False, 'second decoding: ' + o2.kind)
+    else:
+        same = sweep.pieces_equal(o1.pieces, o2.pieces) if ctx.symbolic else o1.text == o2.text
+        ctx.check(L + '/history-independent', same, 'same END record renders differently after other calls were decoded')
+    ctx.reach()
+
+
 def run(ctx, st):
+    if st.get('kind') == 'history':
+        return run_history(ctx, st)
     name = st['name']
     a = [ctx.int('a%d' % i) for i in range(4)]
     b = [ctx.int('b%d' % i) for i in range(4)]
